@@ -3,6 +3,7 @@ the validator reports an error exactly when a quantity is <= 0, a price/fee/tota
 from __future__ import annotations
 
 import datetime as dt
+import base64
 import json
 import os
 import random
@@ -273,6 +274,54 @@ def run_convert_soup(desc):
     return {"evaluations": len(cases), "nontrivial_hashes": hashes, "counters": cnt, "violations": viols[:20], "samples": []}
 
 
+def judge_fault(fault, args, r, before, after, expect_fail, stdout_path, cnt, case):
+    """Oracle for one process run of the fault workload. Returns (violations, failed)."""
+    viols = []
+    if r["timeout"]:
+        cnt["timeouts(inconclusive)"] += 1
+        return viols, None
+    crashed = r["exit"] is None or r["exit"] < 0 or r["exit"] == 101 or r["exit"] == 134 or "panicked at" in r["stderr"]
+    if crashed:
+        sig = f"cli-crash:{fault}" if fault in ("overflow_ledger", "stdout_dev_full") else f"cli-crash:{fault}"
+        viols.append({"clause": "cli-crash", "signature": sig,
+                      "detail": f"`{' '.join(args)}` exit {r['exit']}: {r['stderr'].strip().splitlines()[-1][:200] if r['stderr'].strip() else ''}",
+                      "case": case})
+        return viols, None
+    failed = r["exit"] != 0
+    if expect_fail is True and not failed:
+        viols.append({"clause": "fault-not-reported", "signature": "fault-not-reported:" + fault,
+                      "detail": f"`{' '.join(args)}` exit 0", "case": case})
+    if expect_fail is False:
+        # a generated ledger the tool refuses with a clean error is an outcome C15 allows (whether the refusal is
+        # right is C05's business); it only has to satisfy the failure clauses below
+        cnt["ok_runs_refused_with_a_clean_error" if failed else "ok_runs_succeeded"] += 1
+    if failed:
+        cnt["failing_runs_observed"] += 1
+        if not r["stderr"].strip():
+            viols.append({"clause": "failure-without-message", "signature": "failure-without-message", "detail": str(args), "case": case})
+        if r["stdout"] and stdout_path is None:
+            viols.append({"clause": "stdout-on-failure", "signature": "stdout-on-failure:" + fault,
+                          "detail": f"{len(r['stdout'])} bytes: {r['stdout'][:80]!r}", "case": case})
+        changed = [k for k in after if k not in before or after[k] != before[k]]
+        if changed:
+            viols.append({"clause": "files-touched-on-failure", "signature": "files-touched-on-failure:" + fault,
+                          "detail": f"{changed}", "case": case})
+    if fault == "preexisting_default_pdf_multi":
+        if after.get("report.pdf") != before.get("report.pdf"):
+            viols.append({"clause": "default-pdf-path-replaced-existing-file", "signature": "default-pdf-path-replaced-existing-file:multi-input",
+                          "detail": f"report.pdf changed (exit {r['exit']})", "case": case})
+        elif failed:
+            cnt["default_pdf_overwrite_refused"] += 1
+    if fault == "preexisting_default_pdf":
+        if after.get("good.pdf") != before.get("good.pdf"):
+            viols.append({"clause": "default-pdf-path-replaced-existing-file", "signature": "default-pdf-path-replaced-existing-file",
+                          "detail": "good.pdf changed", "case": case})
+        elif failed:
+            cnt["default_pdf_overwrite_refused"] += 1
+
+    return viols, failed
+
+
 def run_faults(desc):
     """Process boundary: fault sequences. On failure: exit non-zero (not 101, not a signal), nothing on stdout,
     --output untouched; the default PDF path never replaces an existing file."""
@@ -285,8 +334,16 @@ def run_faults(desc):
                             "convert_bad_json", "convert_missing_awards", "bad_fx_folder", "year_out_of_table", "parse_soup"])
         good, _f = gen_ledger(rng, Opts(capital=False, splits=True, n_sec=(1, 2), steps=(2, 6)))
         fmt = rng.choice(["plain", "json", "pdf"])
+        files_written, dirs_made = [], []
         with Sandbox(ALL_YEARS_TOML) as sb:
-            sb.write("good.cgt", render_dsl(good))
+            def W(name, data):
+                files_written.append([name, {"b64": base64.b64encode(data).decode()} if isinstance(data, bytes) else data])
+                return sb.write(name, data)
+
+            def MK(name):
+                dirs_made.append(name)
+                os.makedirs(os.path.join(sb.cwd, name))
+            W("good.cgt", render_dsl(good))
             args = None
             pre = {}
             expect_fail = True
@@ -296,35 +353,35 @@ def run_faults(desc):
                 args = ["report", "nope.cgt", "--format", fmt, "--output", "out.bin"]
                 out_name = "out.bin"
             elif fault == "directory_input":
-                os.makedirs(os.path.join(sb.cwd, "dir.cgt"))
+                MK("dir.cgt")
                 args = ["report", "dir.cgt", "--format", fmt]
             elif fault == "non_utf8_input":
-                sb.write("bad.cgt", b"2024-01-01 BUY X 1 @ 1\n\xff\xfe\x00garbage\n")
+                W("bad.cgt", b"2024-01-01 BUY X 1 @ 1\n\xff\xfe\x00garbage\n")
                 args = ["report", "good.cgt", "bad.cgt", "--format", fmt, "--output", "out.bin"]
                 out_name = "out.bin"
             elif fault == "unwritable_output":
                 args = ["report", "good.cgt", "--format", fmt, "--output", "no/such/dir/out.bin"]
             elif fault == "preexisting_output_on_failure":
-                sb.write("keep.out", "PRECIOUS")
-                sb.write("bad.cgt", "2024-01-01 SELL X 5 @ 1\n")
+                W("keep.out", "PRECIOUS")
+                W("bad.cgt", "2024-01-01 SELL X 5 @ 1\n")
                 args = ["report", "bad.cgt", "--format", fmt, "--output", "keep.out"]
                 out_name = "keep.out"
             elif fault == "preexisting_default_pdf":
-                sb.write("good.pdf", "PRECIOUS")
+                W("good.pdf", "PRECIOUS")
                 args = ["report", "good.cgt", "--format", "pdf"]
                 out_name = "good.pdf"
             elif fault == "preexisting_default_pdf_multi":
                 # several inputs: the default path is ./report.pdf
-                sb.write("report.pdf", "PRECIOUS")
-                sb.write("second.cgt", "2020-01-06 BUY ZZ 1 @ 1\n")
+                W("report.pdf", "PRECIOUS")
+                W("second.cgt", "2020-01-06 BUY ZZ 1 @ 1\n")
                 args = ["report", "good.cgt", "second.cgt", "--format", "pdf"]
                 out_name = "report.pdf"
             elif fault == "bad_ledger":
-                sb.write("bad.cgt", render_dsl(good) + "2031-01-01 SELL NOPE 5 @ 1\n")
+                W("bad.cgt", render_dsl(good) + "2031-01-01 SELL NOPE 5 @ 1\n")
                 args = ["report", "bad.cgt", "--format", fmt] + (["--output", "o.bin"] if fmt == "pdf" or rng.random() < 0.5 else [])
                 out_name = "o.bin" if "--output" in args else None
             elif fault in ("soup_file", "parse_soup"):
-                sb.write("s.cgt", soup(rng).encode("utf-8", "replace"))
+                W("s.cgt", soup(rng).encode("utf-8", "replace"))
                 args = (["report", "s.cgt", "--format", fmt] + (["--output", "o.bin"] if fmt == "pdf" else [])) if fault == "soup_file" else ["parse", "s.cgt"]
                 out_name = "o.bin" if "--output" in args else None
                 expect_fail = None   # may legitimately succeed (e.g. empty or all-comment soup)
@@ -332,7 +389,7 @@ def run_faults(desc):
                 args = ["report", "good.cgt", "--format", fmt] + (["--output", "o.bin"] if fmt == "pdf" else [])
                 expect_fail = False
             elif fault == "overflow_ledger":
-                sb.write("big.cgt", "2024-01-01 BUY X 70000000000000000000000000000 @ 70000000000000000000000000000\n2024-02-01 SELL X 1 @ 1\n")
+                W("big.cgt", "2024-01-01 BUY X 70000000000000000000000000000 @ 70000000000000000000000000000\n2024-02-01 SELL X 1 @ 1\n")
                 args = ["report", "big.cgt", "--format", fmt, "--output", "o.bin"]
                 out_name = "o.bin"
             elif fault == "stdout_dev_full":
@@ -340,16 +397,16 @@ def run_faults(desc):
                 stdout_path = "/dev/full"
                 expect_fail = None
             elif fault == "convert_bad_json":
-                sb.write("t.json", soup(rng).encode("utf-8", "replace"))
+                W("t.json", soup(rng).encode("utf-8", "replace"))
                 args = ["convert", "schwab", "t.json", "--output", "c.cgt"]
                 out_name = "c.cgt"
             elif fault == "convert_missing_awards":
-                sb.write("t.json", json.dumps({"BrokerageTransactions": [{"Date": "01/15/2024", "Action": "Stock Plan Activity", "Symbol": "X",
+                W("t.json", json.dumps({"BrokerageTransactions": [{"Date": "01/15/2024", "Action": "Stock Plan Activity", "Symbol": "X",
                                                                          "Description": "", "Quantity": "5", "Price": "", "Fees & Comm": "", "Amount": ""}]}))
                 args = ["convert", "schwab", "t.json"] + (["--awards", "missing.json"] if rng.random() < 0.5 else [])
             elif fault == "bad_fx_folder":
-                os.makedirs(os.path.join(sb.cwd, "fx"))
-                sb.write("fx/2024-01.xml", rng.choice(["<not xml", "", "<exchangeRateMonthList Period='x'></exchangeRateMonthList>"]))
+                MK("fx")
+                W("fx/2024-01.xml", rng.choice(["<not xml", "", "<exchangeRateMonthList Period='x'></exchangeRateMonthList>"]))
                 args = ["report", "good.cgt", "--format", fmt, "--fx-folder", rng.choice(["fx", "nofolder"])] + (["--output", "o.bin"] if fmt == "pdf" else [])
                 out_name = "o.bin" if "--output" in args else None
             elif fault == "year_out_of_table":
@@ -361,48 +418,12 @@ def run_faults(desc):
         cnt["fault_" + fault] += 1
         cnt["process_runs"] += 1
         hashes.add(sha([fault, args, render_dsl(good)])[:16])
-        case = {"op": "fault", "fault": fault, "args": args, "format": fmt}
-        if r["timeout"]:
-            cnt["timeouts(inconclusive)"] += 1
+        case = {"op": "fault", "fault": fault, "args": args, "format": fmt, "expect_fail": expect_fail,
+                "stdout_path": stdout_path, "files": files_written, "dirs": dirs_made}
+        vs_, failed = judge_fault(fault, args, r, before, after, expect_fail, stdout_path, cnt, case)
+        viols += vs_
+        if failed is None:
             continue
-        crashed = r["exit"] is None or r["exit"] < 0 or r["exit"] == 101 or r["exit"] == 134 or "panicked at" in r["stderr"]
-        if crashed:
-            sig = f"cli-crash:{fault}" if fault in ("overflow_ledger", "stdout_dev_full") else f"cli-crash:{fault}"
-            viols.append({"clause": "cli-crash", "signature": sig,
-                          "detail": f"`{' '.join(args)}` exit {r['exit']}: {r['stderr'].strip().splitlines()[-1][:200] if r['stderr'].strip() else ''}",
-                          "case": case})
-            continue
-        failed = r["exit"] != 0
-        if expect_fail is True and not failed:
-            viols.append({"clause": "fault-not-reported", "signature": "fault-not-reported:" + fault,
-                          "detail": f"`{' '.join(args)}` exit 0", "case": case})
-        if expect_fail is False:
-            # a generated ledger the tool refuses with a clean error is an outcome C15 allows (whether the refusal is
-            # right is C05's business); it only has to satisfy the failure clauses below
-            cnt["ok_runs_refused_with_a_clean_error" if failed else "ok_runs_succeeded"] += 1
-        if failed:
-            cnt["failing_runs_observed"] += 1
-            if not r["stderr"].strip():
-                viols.append({"clause": "failure-without-message", "signature": "failure-without-message", "detail": str(args), "case": case})
-            if r["stdout"] and stdout_path is None:
-                viols.append({"clause": "stdout-on-failure", "signature": "stdout-on-failure:" + fault,
-                              "detail": f"{len(r['stdout'])} bytes: {r['stdout'][:80]!r}", "case": case})
-            changed = [k for k in after if k not in before or after[k] != before[k]]
-            if changed:
-                viols.append({"clause": "files-touched-on-failure", "signature": "files-touched-on-failure:" + fault,
-                              "detail": f"{changed}", "case": case})
-        if fault == "preexisting_default_pdf_multi":
-            if after.get("report.pdf") != before.get("report.pdf"):
-                viols.append({"clause": "default-pdf-path-replaced-existing-file", "signature": "default-pdf-path-replaced-existing-file:multi-input",
-                              "detail": f"report.pdf changed (exit {r['exit']})", "case": case})
-            elif failed:
-                cnt["default_pdf_overwrite_refused"] += 1
-        if fault == "preexisting_default_pdf":
-            if after.get("good.pdf") != before.get("good.pdf"):
-                viols.append({"clause": "default-pdf-path-replaced-existing-file", "signature": "default-pdf-path-replaced-existing-file",
-                              "detail": "good.pdf changed", "case": case})
-            elif failed:
-                cnt["default_pdf_overwrite_refused"] += 1
         if len(samples) < 1 and failed:
             samples.append({"fault": fault, "command": " ".join(args), "exit": r["exit"], "stdout_bytes": len(r["stdout"]),
                             "stderr": r["stderr"][:160]})
@@ -478,7 +499,21 @@ def replay(case):
         o = probe().one(case)
         vs = [{"clause": "panic", "signature": panic_signature(o["panic"], "replay"), "detail": str(o["panic"])[:200]}] if "panic" in o else []
         return vs, o
-    return [], {"note": "fault cases: re-run the shard"}
+    if case.get("op") == "fault" and "files" in case:
+        from ..clidrv import Sandbox, ALL_YEARS_TOML
+        with Sandbox(ALL_YEARS_TOML) as sb:
+            for name, data in case["files"]:
+                sb.write(name, base64.b64decode(data["b64"]) if isinstance(data, dict) else data)
+            for dname in case["dirs"]:
+                os.makedirs(os.path.join(sb.cwd, dname), exist_ok=True)
+            before = sb.listing()
+            r = sb.run(case["args"], stdout_path=case.get("stdout_path"))
+            after = sb.listing()
+        vs, _failed = judge_fault(case["fault"], case["args"], r, before, after, case.get("expect_fail"),
+                                  case.get("stdout_path"), Counter(), case)
+        return vs, {"exit": r["exit"], "stderr": r["stderr"][:400], "stdout_bytes": len(r["stdout"]),
+                    "files_after": sorted(after)}
+    return [], {"note": "fault cases recorded before the sandbox contents were kept: re-run the shard"}
 
 
 THRESHOLDS = {"ok_runs_succeeded": 10, "library_calls": 8000, "hostile_moderate_ledgers": 2000, "hostile_extreme_ledgers": 2000, "validator_cases": 2000,
